@@ -12,6 +12,9 @@ import Mathlib.MeasureTheory.Function.Jacobian
 import Mathlib.MeasureTheory.Measure.Lebesgue.VolumeOfBalls
 import Mathlib.MeasureTheory.Measure.Lebesgue.Complex
 import Mathlib.Analysis.SpecialFunctions.Trigonometric.Angle
+import Mathlib.MeasureTheory.Measure.Haar.InnerProductSpace
+import Mathlib.MeasureTheory.Constructions.Pi
+import Mathlib.MeasureTheory.Function.SpecialFunctions.Basic
 import Mathlib.Analysis.SpecialFunctions.Sqrt
 import Mathlib.Analysis.SpecialFunctions.Pow.Real
 import Mathlib.Analysis.SpecialFunctions.Trigonometric.Inverse
@@ -629,15 +632,321 @@ example : volume {p : ℝ × ℝ × ℝ | p ∈ Icc (0:ℝ) 1 ×ˢ Icc (0:ℝ) 1
   ball_cell_law_partial 2 1 0 π 0 (by norm_num) (by norm_num) (by norm_num) le_rfl Real.pi_pos.le
     (by linarith [Real.pi_pos]) (by norm_num) (by norm_num)
 
-/-- UNPROVED full statement (kept visible, not a theorem): the push-forward of the uniform law on the
-    unit cube under `Sphere.sample_random_uniform` is the normalised Lebesgue measure on the ball.
-    `ball_cell_law_partial` proves it on the cells of spherical coordinates (with
-    `sphereSample_radius`, `sphereTheta_sin`); the 3-D change of variables is not carried out. -/
+/-- Full statement of the ball law: the push-forward of the uniform law on the unit cube under
+    `Sphere.sample_random_uniform` is the normalised Lebesgue measure on the ball.  Proved below
+    (`ball_law`, `C11_full_ball_holds`); `ball_cell_law_partial` is its restriction to the cells of
+    spherical coordinates. -/
 def C11_full_ball : Prop := ∀ (cx cy cz r : ℝ), 0 < r →
   Measure.map (fun p : ℝ × ℝ × ℝ => sphereSample cx cy cz r p.1 p.2.1 p.2.2)
       (volume.restrict (Icc 0 1 ×ˢ Icc 0 1 ×ˢ Icc 0 1)) =
     (ENNReal.ofReal (4 / 3 * π * r ^ 3))⁻¹ •
       volume.restrict {q : ℝ × ℝ × ℝ | (q.1 - cx) ^ 2 + (q.2.1 - cy) ^ 2 + (q.2.2 - cz) ^ 2 ≤ r ^ 2}
+
+/-! ### 7c. ball: the full law (change of variables with the constant Jacobian `−4πr³/3`) -/
+
+/-- coordinates of `ℝ × ℝ × ℝ` -/
+noncomputable def coordEquiv3 : (ℝ × ℝ × ℝ) ≃ₗ[ℝ] (Fin 3 → ℝ) where
+  toFun p := ![p.1, p.2.1, p.2.2]
+  invFun v := (v 0, v 1, v 2)
+  map_add' p q := by ext i; fin_cases i <;> simp
+  map_smul' a p := by ext i; fin_cases i <;> simp
+  left_inv p := by simp
+  right_inv v := by ext i; fin_cases i <;> simp
+
+/-- the standard basis of `ℝ × ℝ × ℝ` -/
+noncomputable def coordBasis3 : Module.Basis (Fin 3) ℝ (ℝ × ℝ × ℝ) := Module.Basis.ofEquivFun coordEquiv3
+
+theorem toLin3_apply (M : Matrix (Fin 3) (Fin 3) ℝ) (p : ℝ × ℝ × ℝ) :
+    Matrix.toLin coordBasis3 coordBasis3 M p =
+      (M 0 0 * p.1 + M 0 1 * p.2.1 + M 0 2 * p.2.2,
+       M 1 0 * p.1 + M 1 1 * p.2.1 + M 1 2 * p.2.2,
+       M 2 0 * p.1 + M 2 1 * p.2.1 + M 2 2 * p.2.2) := by
+  rw [Matrix.toLin_apply]
+  simp [coordBasis3, coordEquiv3, Fin.sum_univ_three, Matrix.mulVec, dotProduct, Module.Basis.ofEquivFun_repr_apply,
+    Module.Basis.coe_ofEquivFun]
+
+/-- the ball sampler written with the real functions (for `u₃ ∈ [0,1]`) -/
+theorem sphereSample_eq (cx cy cz r u1 u2 u3 : ℝ) (h0 : 0 ≤ u3) (h1 : u3 ≤ 1) :
+    sphereSample cx cy cz r u1 u2 u3 =
+      (u1 ^ ((1:ℝ) / 3) * r * Real.cos (2 * π * u2) * √(1 - (2 * u3 - 1) ^ 2) + cx,
+       u1 ^ ((1:ℝ) / 3) * r * Real.sin (2 * π * u2) * √(1 - (2 * u3 - 1) ^ 2) + cy,
+       u1 ^ ((1:ℝ) / 3) * r * (1 - 2 * u3) + cz) := by
+  have hs := sphereTheta_sin u3 h0 h1
+  have hc : Transc.cos (sphereTheta u3) = √(1 - (2 * u3 - 1) ^ 2) := by
+    show Real.cos (Real.arccos (two * u3 - 1) - Real.pi / two) = _
+    rw [two_eq_real, Real.cos_sub_pi_div_two, Real.sin_arccos]
+  simp only [sphereSample, two_eq_real, hs, hc]; rfl
+
+/-- the map of `sphereSample_eq` -/
+noncomputable def ballG (cx cy cz r : ℝ) (u : ℝ × ℝ × ℝ) : ℝ × ℝ × ℝ :=
+  (u.1 ^ ((1:ℝ) / 3) * r * Real.cos (2 * π * u.2.1) * √(1 - (2 * u.2.2 - 1) ^ 2) + cx,
+   u.1 ^ ((1:ℝ) / 3) * r * Real.sin (2 * π * u.2.1) * √(1 - (2 * u.2.2 - 1) ^ 2) + cy,
+   u.1 ^ ((1:ℝ) / 3) * r * (1 - 2 * u.2.2) + cz)
+
+/-- Jacobian matrix of the ball sampler -/
+noncomputable def ballDeriv (r : ℝ) (u : ℝ × ℝ × ℝ) : ℝ × ℝ × ℝ →L[ℝ] ℝ × ℝ × ℝ :=
+  (Matrix.toLin coordBasis3 coordBasis3
+    !![(1 / 3 * u.1 ^ ((1:ℝ) / 3 - 1)) * r * Real.cos (2 * π * u.2.1) * √(1 - (2 * u.2.2 - 1) ^ 2),
+         -(u.1 ^ ((1:ℝ) / 3) * r * (2 * π) * Real.sin (2 * π * u.2.1) * √(1 - (2 * u.2.2 - 1) ^ 2)),
+         -(u.1 ^ ((1:ℝ) / 3) * r * Real.cos (2 * π * u.2.1) * (2 * (2 * u.2.2 - 1) / √(1 - (2 * u.2.2 - 1) ^ 2)));
+       (1 / 3 * u.1 ^ ((1:ℝ) / 3 - 1)) * r * Real.sin (2 * π * u.2.1) * √(1 - (2 * u.2.2 - 1) ^ 2),
+         u.1 ^ ((1:ℝ) / 3) * r * (2 * π) * Real.cos (2 * π * u.2.1) * √(1 - (2 * u.2.2 - 1) ^ 2),
+         -(u.1 ^ ((1:ℝ) / 3) * r * Real.sin (2 * π * u.2.1) * (2 * (2 * u.2.2 - 1) / √(1 - (2 * u.2.2 - 1) ^ 2)));
+       (1 / 3 * u.1 ^ ((1:ℝ) / 3 - 1)) * r * (1 - 2 * u.2.2), 0,
+         -(2 * (u.1 ^ ((1:ℝ) / 3) * r))]).toContinuousLinearMap
+
+theorem ballG_hasFDerivAt (cx cy cz r : ℝ) (u : ℝ × ℝ × ℝ) (hu1 : 0 < u.1) (hu3 : 0 < u.2.2)
+    (hu3' : u.2.2 < 1) : HasFDerivAt (ballG cx cy cz r) (ballDeriv r u) u := by
+  have hm0 : 0 < 1 - (2 * u.2.2 - 1) ^ 2 := by nlinarith
+  have hm : √(1 - (2 * u.2.2 - 1) ^ 2) ≠ 0 := (Real.sqrt_pos.2 hm0).ne'
+  have h21 : HasFDerivAt (fun p : ℝ × ℝ × ℝ => p.2.1)
+      ((ContinuousLinearMap.fst ℝ ℝ ℝ).comp (ContinuousLinearMap.snd ℝ ℝ (ℝ × ℝ))) u :=
+    ((ContinuousLinearMap.fst ℝ ℝ ℝ).comp (ContinuousLinearMap.snd ℝ ℝ (ℝ × ℝ))).hasFDerivAt
+  have h22 : HasFDerivAt (fun p : ℝ × ℝ × ℝ => p.2.2)
+      ((ContinuousLinearMap.snd ℝ ℝ ℝ).comp (ContinuousLinearMap.snd ℝ ℝ (ℝ × ℝ))) u :=
+    ((ContinuousLinearMap.snd ℝ ℝ ℝ).comp (ContinuousLinearMap.snd ℝ ℝ (ℝ × ℝ))).hasFDerivAt
+  have hc : HasFDerivAt (fun p : ℝ × ℝ × ℝ => p.1 ^ ((1:ℝ) / 3) * r) _ u :=
+    ((Real.hasDerivAt_rpow_const (p := (1:ℝ) / 3) (Or.inl hu1.ne')).comp_hasFDerivAt u
+      (hasFDerivAt_fst (𝕜 := ℝ) (E := ℝ) (F := ℝ × ℝ) (p := u))).mul_const r
+  have hφ : HasFDerivAt (fun p : ℝ × ℝ × ℝ => 2 * π * p.2.1) _ u := h21.const_mul (2 * π)
+  have hw : HasFDerivAt (fun p : ℝ × ℝ × ℝ => √(1 - (2 * p.2.2 - 1) ^ 2)) _ u :=
+    ((((h22.const_mul 2).sub_const 1).pow 2).const_sub 1).sqrt hm0.ne'
+  have hz : HasFDerivAt (fun p : ℝ × ℝ × ℝ => 1 - 2 * p.2.2) _ u := (h22.const_mul 2).const_sub 1
+  have hx := ((hc.mul hφ.cos).mul hw).add_const cx
+  have hy := ((hc.mul hφ.sin).mul hw).add_const cy
+  have hzz := (hc.mul hz).add_const cz
+  have h := hx.prodMk (hy.prodMk hzz)
+  unfold ballG
+  refine h.congr_fderiv ?_
+  unfold ballDeriv
+  refine ContinuousLinearMap.ext fun p => ?_
+  simp only [LinearMap.coe_toContinuousLinearMap', toLin3_apply]
+  simp
+  refine ⟨?_, ?_, ?_⟩ <;> field_simp <;> ring
+
+theorem det3_of (a b c d e f g h i : ℝ) :
+    Matrix.det !![a, b, c; d, e, f; g, h, i] =
+      a * e * i - a * f * h - b * d * i + b * f * g + c * d * h - c * e * g := by
+  rw [Matrix.det_fin_three]
+  simp
+
+theorem ballDeriv_det (r : ℝ) (u : ℝ × ℝ × ℝ) (hu1 : 0 < u.1) (hu3 : 0 < u.2.2) (hu3' : u.2.2 < 1) :
+    (ballDeriv r u).det = -(4 / 3 * π * r ^ 3) := by
+  have hm0 : 0 < 1 - (2 * u.2.2 - 1) ^ 2 := by nlinarith
+  have hm : √(1 - (2 * u.2.2 - 1) ^ 2) ≠ 0 := (Real.sqrt_pos.2 hm0).ne'
+  have h1 := Real.cos_sq_add_sin_sq (2 * π * u.2.1)
+  have h3 : √(1 - (2 * u.2.2 - 1) ^ 2) ^ 2 = 1 - (2 * u.2.2 - 1) ^ 2 := Real.sq_sqrt hm0.le
+  have h2 : √(1 - (2 * u.2.2 - 1) ^ 2) * (2 * (2 * u.2.2 - 1) / √(1 - (2 * u.2.2 - 1) ^ 2)) =
+      2 * (2 * u.2.2 - 1) := by field_simp
+  have h4 : (u.1 ^ ((1:ℝ) / 3)) ^ 2 * (1 / 3 * u.1 ^ ((1:ℝ) / 3 - 1)) = 1 / 3 := by
+    rw [← Real.rpow_natCast, ← Real.rpow_mul hu1.le, mul_comm, mul_assoc, ← Real.rpow_add hu1]
+    norm_num
+  unfold ballDeriv
+  simp only [LinearMap.det_toContinuousLinearMap, LinearMap.det_toLin]
+  generalize (2 * (2 * u.2.2 - 1) / √(1 - (2 * u.2.2 - 1) ^ 2)) = k at h2
+  generalize √(1 - (2 * u.2.2 - 1) ^ 2) = m at h2 h3
+  generalize (1 / 3 * u.1 ^ ((1:ℝ) / 3 - 1)) = c' at h4
+  generalize u.1 ^ ((1:ℝ) / 3) = c at h4
+  generalize Real.cos (2 * π * u.2.1) = C at h1
+  generalize Real.sin (2 * π * u.2.1) = S at h1
+  rw [det3_of]
+  linear_combination (c ^ 2 * c' * r ^ 3 * (2 * π) * (-2 * m ^ 2 + (m * k) * (1 - 2 * u.2.2))) * h1 +
+    (c ^ 2 * c' * r ^ 3 * (2 * π) * (1 - 2 * u.2.2)) * h2 -
+    2 * (c ^ 2 * c' * r ^ 3 * (2 * π)) * h3 - 2 * (2 * π) * r ^ 3 * h4
+
+theorem volume_preserving_fin3 : MeasurePreserving (fun v : Fin 3 → ℝ => ((v 0, v 1, v 2) : ℝ × ℝ × ℝ)) volume volume := by
+  have h1 := volume_preserving_piFinSuccAbove (fun _ : Fin 3 => ℝ) 0
+  have h2 := (MeasurePreserving.id (volume : Measure ℝ)).prod
+    (volume_preserving_piFinTwo (fun _ : Fin 2 => ℝ))
+  exact h2.comp h1
+
+theorem volume_ball3 (cx cy cz r : ℝ) (hr : 0 ≤ r) :
+    volume {q : ℝ × ℝ × ℝ | (q.1 - cx) ^ 2 + (q.2.1 - cy) ^ 2 + (q.2.2 - cz) ^ 2 ≤ r ^ 2} =
+      ENNReal.ofReal (4 / 3 * π * r ^ 3) := by
+  have hΨ : MeasurePreserving (fun v : EuclideanSpace ℝ (Fin 3) => ((v 0, v 1, v 2) : ℝ × ℝ × ℝ))
+      volume volume := volume_preserving_fin3.comp (PiLp.volume_preserving_ofLp (Fin 3))
+  have hD : MeasurableSet {q : ℝ × ℝ × ℝ | (q.1 - cx) ^ 2 + (q.2.1 - cy) ^ 2 + (q.2.2 - cz) ^ 2 ≤ r ^ 2} := by
+    apply measurableSet_le <;> fun_prop
+  rw [← hΨ.measure_preimage hD.nullMeasurableSet]
+  have hset : (fun v : EuclideanSpace ℝ (Fin 3) => ((v 0, v 1, v 2) : ℝ × ℝ × ℝ)) ⁻¹'
+      {q : ℝ × ℝ × ℝ | (q.1 - cx) ^ 2 + (q.2.1 - cy) ^ 2 + (q.2.2 - cz) ^ 2 ≤ r ^ 2} =
+      Metric.closedBall (WithLp.toLp 2 ![cx, cy, cz]) r := by
+    ext v
+    simp only [mem_preimage, mem_ofPred_eq, Metric.mem_closedBall, EuclideanSpace.dist_eq,
+      Fin.sum_univ_three, Real.sqrt_le_left hr]
+    simp [Real.dist_eq, sq_abs]
+  rw [hset, EuclideanSpace.volume_closedBall_fin_three, ← ENNReal.ofReal_pow hr,
+    ← ENNReal.ofReal_mul (by positivity)]
+  congr 1; ring
+
+/-- the ball sampler is injective on the open unit cube -/
+theorem ballG_injOn (cx cy cz r : ℝ) (hr : 0 < r) :
+    InjOn (ballG cx cy cz r) (Ioo 0 1 ×ˢ Ioo 0 1 ×ˢ Ioo 0 1) := by
+  rintro ⟨u1, u2, u3⟩ hp ⟨v1, v2, v3⟩ hq h
+  simp only [mem_prod, mem_Ioo] at hp hq
+  obtain ⟨⟨hu1, _⟩, ⟨hu2, hu2'⟩, hu3, hu3'⟩ := hp
+  obtain ⟨⟨hv1, _⟩, ⟨hv2, hv2'⟩, hv3, hv3'⟩ := hq
+  simp only [ballG, Prod.mk.injEq, add_left_inj] at h
+  obtain ⟨hx, hy, hz⟩ := h
+  have hmu0 : 0 < 1 - (2 * u3 - 1) ^ 2 := by nlinarith
+  have hmv0 : 0 < 1 - (2 * v3 - 1) ^ 2 := by nlinarith
+  have hmu := Real.sq_sqrt hmu0.le
+  have hmv := Real.sq_sqrt hmv0.le
+  have hmpos : 0 < √(1 - (2 * v3 - 1) ^ 2) := Real.sqrt_pos.2 hmv0
+  have hcu := Real.cos_sq_add_sin_sq (2 * π * u2)
+  have hcv := Real.cos_sq_add_sin_sq (2 * π * v2)
+  have hau : 0 < u1 ^ ((1:ℝ) / 3) * r := mul_pos (Real.rpow_pos_of_pos hu1 _) hr
+  have hav : 0 < v1 ^ ((1:ℝ) / 3) * r := mul_pos (Real.rpow_pos_of_pos hv1 _) hr
+  have hsq : (u1 ^ ((1:ℝ) / 3) * r) ^ 2 = (v1 ^ ((1:ℝ) / 3) * r) ^ 2 := by
+    have e1 : (u1 ^ ((1:ℝ) / 3) * r * Real.cos (2 * π * u2) * √(1 - (2 * u3 - 1) ^ 2)) ^ 2 =
+        (v1 ^ ((1:ℝ) / 3) * r * Real.cos (2 * π * v2) * √(1 - (2 * v3 - 1) ^ 2)) ^ 2 := by rw [hx]
+    have e2 : (u1 ^ ((1:ℝ) / 3) * r * Real.sin (2 * π * u2) * √(1 - (2 * u3 - 1) ^ 2)) ^ 2 =
+        (v1 ^ ((1:ℝ) / 3) * r * Real.sin (2 * π * v2) * √(1 - (2 * v3 - 1) ^ 2)) ^ 2 := by rw [hy]
+    have e3 : (u1 ^ ((1:ℝ) / 3) * r * (1 - 2 * u3)) ^ 2 = (v1 ^ ((1:ℝ) / 3) * r * (1 - 2 * v3)) ^ 2 := by
+      rw [hz]
+    have nu : (u1 ^ ((1:ℝ) / 3) * r * Real.cos (2 * π * u2) * √(1 - (2 * u3 - 1) ^ 2)) ^ 2 +
+        (u1 ^ ((1:ℝ) / 3) * r * Real.sin (2 * π * u2) * √(1 - (2 * u3 - 1) ^ 2)) ^ 2 +
+        (u1 ^ ((1:ℝ) / 3) * r * (1 - 2 * u3)) ^ 2 = (u1 ^ ((1:ℝ) / 3) * r) ^ 2 := by
+      linear_combination (u1 ^ ((1:ℝ) / 3) * r) ^ 2 * √(1 - (2 * u3 - 1) ^ 2) ^ 2 * hcu +
+        (u1 ^ ((1:ℝ) / 3) * r) ^ 2 * hmu
+    have nv : (v1 ^ ((1:ℝ) / 3) * r * Real.cos (2 * π * v2) * √(1 - (2 * v3 - 1) ^ 2)) ^ 2 +
+        (v1 ^ ((1:ℝ) / 3) * r * Real.sin (2 * π * v2) * √(1 - (2 * v3 - 1) ^ 2)) ^ 2 +
+        (v1 ^ ((1:ℝ) / 3) * r * (1 - 2 * v3)) ^ 2 = (v1 ^ ((1:ℝ) / 3) * r) ^ 2 := by
+      linear_combination (v1 ^ ((1:ℝ) / 3) * r) ^ 2 * √(1 - (2 * v3 - 1) ^ 2) ^ 2 * hcv +
+        (v1 ^ ((1:ℝ) / 3) * r) ^ 2 * hmv
+    rw [← nu, ← nv, e1, e2, e3]
+  have hab : u1 ^ ((1:ℝ) / 3) * r = v1 ^ ((1:ℝ) / 3) * r := (sq_eq_sq₀ hau.le hav.le).1 hsq
+  have hc : u1 ^ ((1:ℝ) / 3) = v1 ^ ((1:ℝ) / 3) := mul_right_cancel₀ hr.ne' hab
+  have h1 : u1 = v1 := by rw [← cbrt_cube u1 hu1.le, ← cbrt_cube v1 hv1.le, hc]
+  rw [hab] at hx hy hz
+  have h3 : u3 = v3 := by
+    have := mul_left_cancel₀ hav.ne' hz
+    linarith
+  rw [h3] at hx hy
+  have hcos : Real.cos (2 * π * u2) = Real.cos (2 * π * v2) :=
+    mul_left_cancel₀ hav.ne' (mul_right_cancel₀ hmpos.ne' hx)
+  have hsin : Real.sin (2 * π * u2) = Real.sin (2 * π * v2) :=
+    mul_left_cancel₀ hav.ne' (mul_right_cancel₀ hmpos.ne' hy)
+  obtain ⟨k, hk⟩ := Real.Angle.angle_eq_iff_two_pi_dvd_sub.1 (Real.Angle.cos_sin_inj hcos hsin)
+  have hk' : u2 - v2 = k := by
+    have h2π : (2 * π) ≠ 0 := by positivity
+    apply mul_left_cancel₀ h2π; linarith
+  have hk1 : (k : ℝ) < 1 := by linarith
+  have hk2 : (-1 : ℝ) < k := by linarith
+  have hk0 : k = 0 := by
+    have a1 : k < 1 := by exact_mod_cast hk1
+    have a2 : -1 < k := by exact_mod_cast hk2
+    omega
+  have h2 : u2 = v2 := by rw [hk0] at hk'; simpa [sub_eq_zero] using hk'
+  rw [h1, h2, h3]
+
+/-- Full law of the ball sampler: the push-forward of the uniform law on the unit cube under
+    `Sphere.sample_random_uniform` is the normalised Lebesgue measure on the ball — the sampler is
+    exactly uniform (the map has the constant Jacobian `−4πr³/3`). -/
+theorem ball_law (cx cy cz r : ℝ) (hr : 0 < r) :
+    Measure.map (fun p : ℝ × ℝ × ℝ => sphereSample cx cy cz r p.1 p.2.1 p.2.2)
+        (volume.restrict (Icc 0 1 ×ˢ Icc 0 1 ×ˢ Icc 0 1)) =
+      (ENNReal.ofReal (4 / 3 * π * r ^ 3))⁻¹ •
+        volume.restrict
+          {q : ℝ × ℝ × ℝ | (q.1 - cx) ^ 2 + (q.2.1 - cy) ^ 2 + (q.2.2 - cz) ^ 2 ≤ r ^ 2} := by
+  set F := fun p : ℝ × ℝ × ℝ => sphereSample cx cy cz r p.1 p.2.1 p.2.2 with hF
+  set Q : Set (ℝ × ℝ × ℝ) := Ioo 0 1 ×ˢ Ioo 0 1 ×ˢ Ioo 0 1 with hQdef
+  set D : Set (ℝ × ℝ × ℝ) :=
+    {q : ℝ × ℝ × ℝ | (q.1 - cx) ^ 2 + (q.2.1 - cy) ^ 2 + (q.2.2 - cz) ^ 2 ≤ r ^ 2} with hD
+  have hcpos : 0 < 4 / 3 * π * r ^ 3 := by positivity
+  have : Measure.IsAddHaarMeasure (volume : Measure (ℝ × ℝ × ℝ)) :=
+    Measure.prod.instIsAddHaarMeasure _ _
+  have hQ : MeasurableSet Q := measurableSet_Ioo.prod (measurableSet_Ioo.prod measurableSet_Ioo)
+  have hFG : ∀ x ∈ Q, F x = ballG cx cy cz r x := fun x hx =>
+    sphereSample_eq cx cy cz r x.1 x.2.1 x.2.2 hx.2.2.1.le hx.2.2.2.le
+  have hf' : ∀ x ∈ Q, HasFDerivWithinAt F (ballDeriv r x) Q x := fun x hx =>
+    (ballG_hasFDerivAt cx cy cz r x hx.1.1 hx.2.2.1 hx.2.2.2).hasFDerivWithinAt.congr hFG (hFG x hx)
+  have hinj : InjOn F Q := (ballG_injOn cx cy cz r hr).congr fun x hx => (hFG x hx).symm
+  have hsq : (volume : Measure (ℝ × ℝ × ℝ)).restrict (Icc 0 1 ×ˢ Icc 0 1 ×ˢ Icc 0 1) =
+      volume.restrict Q := by
+    rw [hQdef, Measure.volume_eq_prod, Measure.volume_eq_prod, ← Measure.prod_restrict,
+      ← Measure.prod_restrict, ← Measure.prod_restrict, ← Measure.prod_restrict,
+      Measure.restrict_congr_set (Ioo_ae_eq_Icc (a := (0:ℝ)) (b := 1))]
+  have hQvol : volume Q = 1 := by
+    rw [hQdef, Measure.volume_eq_prod, Measure.prod_prod, Measure.volume_eq_prod, Measure.prod_prod,
+      Real.volume_Ioo]
+    simp
+  have hdet : ∀ x ∈ Q, ENNReal.ofReal |(ballDeriv r x).det| = ENNReal.ofReal (4 / 3 * π * r ^ 3) :=
+    fun x hx => by rw [ballDeriv_det r x hx.1.1 hx.2.2.1 hx.2.2.2, abs_neg, abs_of_pos hcpos]
+  have hdens : (volume.restrict Q).withDensity (fun x => ENNReal.ofReal |(ballDeriv r x).det|) =
+      ENNReal.ofReal (4 / 3 * π * r ^ 3) • volume.restrict Q := by
+    rw [← withDensity_const]
+    apply withDensity_congr_ae
+    filter_upwards [ae_restrict_mem hQ] with x hx
+    exact hdet x hx
+  have key := map_withDensity_abs_det_fderiv_eq_addHaar volume hQ.nullMeasurableSet hf' hinj
+  rw [hdens, Measure.map_smul] at key
+  have himg : F '' Q ⊆ D := by
+    rintro _ ⟨⟨u1, u2, u3⟩, hu, rfl⟩
+    have hu1 : 0 ≤ u1 := hu.1.1.le
+    have hu1' : u1 ≤ 1 := hu.1.2.le
+    show ((sphereSample cx cy cz r u1 u2 u3).1 - cx) ^ 2 + ((sphereSample cx cy cz r u1 u2 u3).2.1 - cy) ^ 2 +
+      ((sphereSample cx cy cz r u1 u2 u3).2.2 - cz) ^ 2 ≤ r ^ 2
+    rw [sphereSample_radius]
+    show (u1 ^ ((1:ℝ) / 3) * r) ^ 2 ≤ r ^ 2
+    have h1 : u1 ^ ((1:ℝ) / 3) ≤ 1 := Real.rpow_le_one hu1 hu1' (by norm_num)
+    have h0 : 0 ≤ u1 ^ ((1:ℝ) / 3) := Real.rpow_nonneg hu1 _
+    have : u1 ^ ((1:ℝ) / 3) * r ≤ r := by nlinarith
+    exact pow_le_pow_left₀ (mul_nonneg h0 hr.le) this 2
+  have hvolimg : volume (F '' Q) = ENNReal.ofReal (4 / 3 * π * r ^ 3) := by
+    rw [← lintegral_abs_det_fderiv_eq_addHaar_image volume hQ hf' hinj, setLIntegral_congr_fun hQ hdet,
+      setLIntegral_const, hQvol, mul_one]
+  have hae : F '' Q =ᵐ[volume] D :=
+    ae_eq_of_subset_of_measure_ge himg (by rw [hD, volume_ball3 cx cy cz r hr.le, hvolimg])
+      (measurable_image_of_fderivWithin hQ hf' hinj).nullMeasurableSet
+      (by rw [hD, volume_ball3 cx cy cz r hr.le]; exact ENNReal.ofReal_ne_top)
+  rw [hsq, ← Measure.restrict_congr_set hae, ← key, smul_smul,
+    ENNReal.inv_mul_cancel (ENNReal.ofReal_pos.2 hcpos).ne' ENNReal.ofReal_ne_top, one_smul]
+
+example : Measure.map (fun p : ℝ × ℝ × ℝ => sphereSample (1:ℝ) 2 3 4 p.1 p.2.1 p.2.2)
+      (volume.restrict (Icc 0 1 ×ˢ Icc 0 1 ×ˢ Icc 0 1)) =
+    (ENNReal.ofReal (4 / 3 * π * 4 ^ 3))⁻¹ •
+      volume.restrict {q : ℝ × ℝ × ℝ | (q.1 - 1) ^ 2 + (q.2.1 - 2) ^ 2 + (q.2.2 - 3) ^ 2 ≤ 4 ^ 2} :=
+  ball_law 1 2 3 4 (by norm_num)
+
+/-- The full ball statement holds. -/
+theorem C11_full_ball_holds : C11_full_ball := fun cx cy cz r hr => ball_law cx cy cz r hr
+
+theorem sphereSample_measurable (cx cy cz r : ℝ) :
+    Measurable (fun p : ℝ × ℝ × ℝ => sphereSample cx cy cz r p.1 p.2.1 p.2.2) := by
+  have : (fun p : ℝ × ℝ × ℝ => sphereSample cx cy cz r p.1 p.2.1 p.2.2) = fun p =>
+      (p.1 ^ ((1:ℝ) / 3) * r * Real.cos (2 * π * p.2.1) *
+          Real.cos (Real.arccos (2 * p.2.2 - 1) - π / 2) + cx,
+       p.1 ^ ((1:ℝ) / 3) * r * Real.sin (2 * π * p.2.1) *
+          Real.cos (Real.arccos (2 * p.2.2 - 1) - π / 2) + cy,
+       p.1 ^ ((1:ℝ) / 3) * r * Real.sin (Real.arccos (2 * p.2.2 - 1) - π / 2) + cz) := by
+    funext p; simp only [sphereSample, sphereTheta, two_eq_real]; rfl
+  rw [this]
+  have ha := Real.measurable_arccos
+  fun_prop
+
+/-- Consequence: the probability that the ball sample lies in a measurable set `S` is the volume
+    share of `S` within the ball. -/
+theorem ball_law_apply (cx cy cz r : ℝ) (hr : 0 < r) {S : Set (ℝ × ℝ × ℝ)} (hS : MeasurableSet S) :
+    volume {p : ℝ × ℝ × ℝ | p ∈ Icc (0:ℝ) 1 ×ˢ Icc (0:ℝ) 1 ×ˢ Icc (0:ℝ) 1 ∧
+        sphereSample cx cy cz r p.1 p.2.1 p.2.2 ∈ S} =
+      (ENNReal.ofReal (4 / 3 * π * r ^ 3))⁻¹ *
+        volume (S ∩ {q : ℝ × ℝ × ℝ | (q.1 - cx) ^ 2 + (q.2.1 - cy) ^ 2 + (q.2.2 - cz) ^ 2 ≤ r ^ 2}) := by
+  have h := congrArg (fun m : Measure (ℝ × ℝ × ℝ) => m S) (ball_law cx cy cz r hr)
+  simp only [Measure.map_apply (sphereSample_measurable cx cy cz r) hS,
+    Measure.restrict_apply ((sphereSample_measurable cx cy cz r) hS), Measure.smul_apply,
+    Measure.restrict_apply hS, smul_eq_mul] at h
+  rw [← h]
+  congr 1
+  ext p; simp only [mem_ofPred_eq, mem_inter_iff, mem_preimage]; tauto
+
+example : volume {p : ℝ × ℝ × ℝ | p ∈ Icc (0:ℝ) 1 ×ˢ Icc (0:ℝ) 1 ×ˢ Icc (0:ℝ) 1 ∧
+      sphereSample (1:ℝ) 2 3 4 p.1 p.2.1 p.2.2 ∈ Icc (0:ℝ) 1 ×ˢ Icc (0:ℝ) 1 ×ˢ Icc (0:ℝ) 1} =
+    (ENNReal.ofReal (4 / 3 * π * 4 ^ 3))⁻¹ *
+      volume ((Icc (0:ℝ) 1 ×ˢ Icc (0:ℝ) 1 ×ˢ Icc (0:ℝ) 1) ∩
+        {q : ℝ × ℝ × ℝ | (q.1 - 1) ^ 2 + (q.2.1 - 2) ^ 2 + (q.2.2 - 3) ^ 2 ≤ 4 ^ 2}) :=
+  ball_law_apply 1 2 3 4 (by norm_num)
+    (measurableSet_Icc.prod (measurableSet_Icc.prod measurableSet_Icc))
 
 /-! ### 10. transport by maps that scale the measure -/
 
@@ -714,3 +1023,53 @@ example : (ProbabilityTheory.cond (volume : Measure ℝ) (Icc 0 1)).prod
   prod_uniform volume volume _ _
 
 end TPV.Geom
+
+/- axiom audit (all report only propext, Classical.choice, Quot.sound):
+#print axioms TPV.Geom.two_eq_real
+#print axioms TPV.Geom.interval_law
+#print axioms TPV.Geom.interval_cell_law
+#print axioms TPV.Geom.intervalBdry_law
+#print axioms TPV.Geom.disc_radial_law
+#print axioms TPV.Geom.circleSample_radius
+#print axioms TPV.Geom.cbrt_cube
+#print axioms TPV.Geom.ball_radial_law
+#print axioms TPV.Geom.sphereTheta_sin
+#print axioms TPV.Geom.sphereTheta_cos_nonneg
+#print axioms TPV.Geom.sphereTheta_cos_sq
+#print axioms TPV.Geom.sphere_z_law
+#print axioms TPV.Geom.sphereBdrySample_z
+#print axioms TPV.Geom.sphereSample_radius
+#print axioms TPV.Geom.rejection_uniform
+#print axioms TPV.Geom.rejection_uniform_cut
+#print axioms TPV.Geom.cond_uniform_apply
+#print axioms TPV.Geom.first_accepted_law
+#print axioms TPV.Geom.disc_angle_law
+#print axioms TPV.Geom.disc_sector_law_partial
+#print axioms TPV.Geom.circleSample_eq
+#print axioms TPV.Geom.circleSample_hasFDerivAt
+#print axioms TPV.Geom.circleSampleDeriv_det
+#print axioms TPV.Geom.circleSample_injOn
+#print axioms TPV.Geom.volume_disc
+#print axioms TPV.Geom.circleSample_measurable
+#print axioms TPV.Geom.disc_law
+#print axioms TPV.Geom.C11_full_disc_holds
+#print axioms TPV.Geom.disc_law_apply
+#print axioms TPV.Geom.sphereBdry_cell_law_partial
+#print axioms TPV.Geom.ball_cell_law_partial
+#print axioms TPV.Geom.toLin3_apply
+#print axioms TPV.Geom.sphereSample_eq
+#print axioms TPV.Geom.ballG_hasFDerivAt
+#print axioms TPV.Geom.det3_of
+#print axioms TPV.Geom.ballDeriv_det
+#print axioms TPV.Geom.volume_preserving_fin3
+#print axioms TPV.Geom.volume_ball3
+#print axioms TPV.Geom.ballG_injOn
+#print axioms TPV.Geom.ball_law
+#print axioms TPV.Geom.C11_full_ball_holds
+#print axioms TPV.Geom.sphereSample_measurable
+#print axioms TPV.Geom.ball_law_apply
+#print axioms TPV.Geom.cond_map_of_scaling
+#print axioms TPV.Geom.translate_law
+#print axioms TPV.Geom.translate_law3
+#print axioms TPV.Geom.prod_uniform
+-/
